@@ -177,6 +177,26 @@ pub fn search(seed: u64, n: u64) {
         stats.count("input.curl_edge_crosses_itself");
         check_set(&mut stats, &mut rng_sip, &vec![path], "curl_edge_crosses_itself", 200, 200);
     }
+    // a vertex of one shape exactly ON an edge of another shape, the outline leaving through that edge there (a T-junction that is a
+    // crossing), and the same with the vertex a few thousandths inside / outside the edge, so that the crossing lies within 0.01 of the
+    // vertex but not at it; also one path piercing its own edge at / next to its own vertex (own stream)
+    let mut rng_t = Rng(seed ^ 0x7C12C12);
+    for k in 0..(6 + n / 30) {
+        let (x0, y0, w, h) = (rng_t.r(10.0, 25.0), rng_t.r(10.0, 25.0), rng_t.r(30.0, 45.0), rng_t.r(30.0, 45.0));
+        let xe = (x0 + w).round();
+        let d = match k % 3 { 0 => 0.0, 1 => rng_t.r(0.002, 0.0065), _ => -rng_t.r(0.002, 0.0065) };
+        let yv = (y0 + h * rng_t.r(0.3, 0.7)).round();
+        let square = vec![Coord2(x0, y0), Coord2(xe, y0), Coord2(xe, y0 + h), Coord2(x0, y0 + h)];
+        let quad = vec![Coord2(xe - rng_t.r(15.0, 25.0), yv - rng_t.r(10.0, 20.0)), Coord2(xe + d, yv), Coord2(xe + rng_t.r(20.0, 30.0), yv + rng_t.r(15.0, 30.0)), Coord2(xe - rng_t.r(10.0, 20.0), yv + rng_t.r(32.0, 40.0))];
+        let class = if d == 0.0 { "pierced_at_vertex" } else { "pierced_just_off_vertex" };
+        let set: Vec<P> = if k % 4 == 3 {
+            // one path: the square's outline continued into a flag that leaves through the edge x = xe at (xe + d, yv)
+            vec![polygon(&[Coord2(x0, y0), Coord2(xe, y0), Coord2(xe, y0 + h), Coord2(x0 + w * 0.4, y0 + h), Coord2(x0 + w * 0.4, yv), Coord2(xe + d, yv), Coord2(xe + 20.0, yv + 12.0), Coord2(xe + 20.0, y0 + h + 20.0), Coord2(x0, y0 + h + 20.0)])]
+        } else if k % 2 == 0 { vec![polygon(&square), polygon(&quad)] } else { vec![redirect(&mut rng_t, &polygon(&quad)), redirect(&mut rng_t, &polygon(&square))] };
+        stats.case(&format!("{} d={} {:?}", class, d, set), true);
+        stats.count(&format!("input.{}", class));
+        check_set(&mut stats, &mut rng_t, &set, class, 200, 200);
+    }
     for (k, m) in STARS {
         for rot in [0.0, 0.1, TAU / 4.0] {
             for variant in 0..2 {
